@@ -184,6 +184,7 @@ def throw_type(progs):
     rr = RuleResult('THROW-TYPE', 'capacity-limit errors have the documented exception types: out_of_range for the fixed-capacity '
                                   'check and at(), overflow_error for size_type overflow; at() tests idx >= size()')
     seen_roles = set()
+    role_throws = {}
     for prog in progs:
         for f in prog.amc_functions():
             body = f.get('body')
@@ -194,11 +195,13 @@ def throw_type(progs):
             P = None
             if f['name'] in THROW_ROLES:
                 seen_roles.add(f['name'])
-                # the 2-type swap_sizetype only: the same-type overload is noexcept
+                # the 2-type swap_sizetype only: the same-type overload is noexcept; with `if constexpr` an instantiation for two
+                # size types of equal width legitimately contains no throw, so presence is required over all instantiations
                 is_role_instance = not (f['name'].endswith('swap_sizetype') and f.get('nothrow'))
-                if is_role_instance and not any(n.get('k') == 'throw' and n.get('sub') is not None for n in walk(body)):
-                    rr.add(Finding('THROW-TYPE', '%s|missing' % f['key'], f['loc'],
-                                   'the documented %s is no longer thrown here' % THROW_ROLES[f['name']], where=f['pname'], unit=prog.uname))
+                if is_role_instance:
+                    has = any(n.get('k') == 'throw' and n.get('sub') is not None for n in walk(body))
+                    ent = role_throws.setdefault(f['name'], [False, f, prog])
+                    ent[0] = ent[0] or has
             for n in walk(body):
                 if n.get('k') != 'throw' or n.get('sub') is None:
                     continue
@@ -247,6 +250,10 @@ def throw_type(progs):
                 if not ok:
                     rr.add(Finding('THROW-TYPE', '%s|cond' % f['key'], f['loc'],
                                    'the fixed-capacity check does not throw exactly when the request exceeds the capacity', where=f['pname'], unit=prog.uname))
+    for name, (has, f, prog) in role_throws.items():
+        if not has:
+            rr.add(Finding('THROW-TYPE', '%s|missing' % f['key'], f['loc'],
+                           'the documented %s is no longer thrown by any instantiation of this function' % THROW_ROLES[name], where=f['pname'], unit=prog.uname))
     return rr, seen_roles
 
 
